@@ -86,6 +86,21 @@ ATOMS_EXTRA = [
     -(2 ** 63),
     "\0\0\0\0\0\0\0\0",
     "\ud800",
+    # canonically equivalent but different texts (precomposed / combining sequence, compatibility forms, case)
+    "caf\u00e9",
+    "cafe\u0301",
+    "\u212b",
+    "\u00c5",
+    "\uac00",
+    "\u1100\u1161",
+    "\ufb01",
+    "fi",
+    "Stra\u00dfe",
+    "STRASSE",
+    " a",
+    "a ",
+    "a\n",
+    "a\r\n",
 ]
 
 
